@@ -196,8 +196,10 @@ theorem C12_facts_sample_size : ∃ n, Facts.fdSampleSize = some n ∧ 0 < n := 
 
 theorem C12_facts_bootstrap : ∃ k : Nat, Facts.fdBootstrapMultiplier = some k ∧ 0 < k := by decide
 
+/-- the threshold was read from the source and leaves room for "roughly steady": a window whose
+samples differ by up to a factor two is never flagged (`C12_accuracy_threshold` with `hi ≤ 2·lo ≤ θ·lo`) -/
 theorem C12_facts_threshold :
-    Facts.suspicionThreshold = some FD.suspicionThreshold ∧ 0 < FD.suspicionThreshold := by decide
+    Facts.suspicionThreshold = some FD.suspicionThreshold ∧ 2 ≤ FD.suspicionThreshold := by decide
 
 /-- the guards the theorems assume are the ones production establishes: the extracted sample
 size is positive, and the bootstrap interval `Interval * k` is positive for every positive
